@@ -103,7 +103,8 @@ Drive(st, m, calls, k, mode) ==
                 [] c.name = "close"   -> OnClose(st, m)
                 [] OTHER              -> st,
               m, calls, k + 1, mode)
-FileAfter(m, calls, before) == Drive(FmtInit(before), m, calls, 1, "code").file
+\* the code as it is now (eof() repaired: has_failed() in both tests); mode "code" = the former behaviour, kept for reference
+FileAfter(m, calls, before) == Drive(FmtInit(before), m, calls, 1, "repaired").file
 FileAfterRepaired(m, calls, before) == Drive(FmtInit(before), m, calls, 1, "repaired").file
 \* the call-outs of the run engine (Run.tla: container.run announces a feature -- feature(f) ... eof() -- only if it
 \* should run or show_skipped; run_model closes every formatter at the end)
@@ -186,5 +187,5 @@ FileClauses(m, dry, file) ==
    ELSE (IF ~ExactOK(m, file) THEN {ExactId(m, file)} ELSE {})
         \cup (IF ~StaleOK(m, file) THEN {"C17.stale_removed"} ELSE {})
 LoopClauses(m, file, fb) == IF ~LoopOK(m, file, fb) THEN {"C17.loop"} ELSE {}
-KnownFamilies == {"C17.exact/error_class_ignored"}
+KnownFamilies == {}          \* the error_class_ignored family was repaired in /repo; it is only a label now
 =============================================================================
